@@ -43,6 +43,8 @@ function decodeStrLit(s) {
     if (n === undefined) return null
     const simple = { r: '\r', n: '\n', t: '\t', b: '\b', f: '\f', v: '\v', 0: '\0' }
     if (n in simple) out += simple[n]
+    else if (n === '\n' || n === '\u2028' || n === '\u2029') continue // line continuation
+    else if (n === '\r') { if (body[i + 1] === '\n') i++; continue }
     else if (n === 'x') { out += String.fromCharCode(parseInt(body.substr(i + 1, 2), 16)); i += 2 } else if (n === 'u') { out += String.fromCharCode(parseInt(body.substr(i + 1, 4), 16)); i += 4 } else out += n
   }
   return out
